@@ -39,7 +39,7 @@ def main():
                     t = sh("cd %s && /venv/bin/python -m pytest -q -x -p no:cacheprovider tests 2>&1 | tail -1" % REPO, env=env)
                     res["tests"] = t.stdout.strip()
                     t0 = time.time()
-                    c = sh("cd %s && ./check %s --tier %s" % (VERIF, pid, tier))
+                    c = sh("cd %s && timeout -k 10 1500 ./check %s --tier %s" % (VERIF, pid, tier))
                     res["check_exit"] = c.returncode
                     res["check_wall_s"] = round(time.time() - t0, 1)
                     res["violations"] = [l[:300] for l in c.stdout.splitlines() if l.startswith("VIOLATION")][:8]
